@@ -830,3 +830,63 @@ def call_arg_names(F):
     if not r.violations:
         r.discharged = r.obligations
     return r
+
+
+def foreign_fields_cover(F):
+    """R-FOREIGN-FIELDS: a parsed wasmparser struct is re-encoded field by field.  Where a function reads two or more named
+    fields of such a struct, it reads all of them — a field that is skipped (`case.refines` replaced by `None`) is silently
+    reset on re-encoding.  Fields whose type is an enum with a single variant carry no information and are exempt."""
+    r = RuleResult("R-FOREIGN-FIELDS",
+                   "every function that reads two or more named fields of a wasmparser struct reads all of its fields (single-variant enum fields excepted)")
+    n = 0
+    for fn in F.fns:
+        if fn.get("body") is None:
+            continue
+        # scope: the component encoders, which rebuild every item field by field (the module encoder converts whole values
+        # through `From` impls and reads single fields only for its side-effect records)
+        if not (fn.get("file") or "").endswith(("ir/component.rs", "ir/wrappers.rs")):
+            continue
+        use = {}
+        for x in walk(fn["body"]):
+            if x.get("k") == "Field" and not x["name"].isdigit():
+                bt = (x.get("base_ty") or "").replace("&mut ", "").replace("&", "").split("<")[0]
+                if bt.startswith("wasmparser::") and bt in F.adts:
+                    use.setdefault(bt, set()).add(x["name"])
+            # fields bound by a destructuring pattern count as read
+            if x.get("k") == "Struct" and "pats" not in x and isinstance(x.get("fields"), list) and (x.get("adt") or "").startswith("wasmparser::") and x.get("adt") in F.adts \
+                    and x["fields"] and isinstance(x["fields"][0], list) and isinstance(x["fields"][0][1], dict) and x["fields"][0][1].get("k") in ("Binding", "Wild", "Struct", "Tuple", "TupleStruct", "Ref"):
+                names_ = {f_[0] for f_ in x["fields"] if isinstance(f_[1], dict) and f_[1].get("k") != "Wild"}
+                use.setdefault(x["adt"], set()).update(names_)
+                if "rest" not in x and not x.get("has_rest"):
+                    pass
+        for bt, fs in sorted(use.items()):
+            vs_ = F.adts[bt]["variants"]
+            if len(vs_) != 1:
+                continue
+            allf = {}
+            for f_ in vs_[0]["fields"]:
+                allf[f_["name"]] = f_.get("ty") or ""
+            if len(fs) < 2 or len(allf) < 3:
+                continue
+            missing = []
+            for nm, ty in allf.items():
+                if nm in fs or nm.isdigit():
+                    continue
+                t_ = ty.replace("&", "").split("<")[0]
+                if t_ in F.adts and len(F.adts[t_]["variants"]) == 1 and F.adts[t_].get("kind") == "enum":
+                    continue        # a single-variant enum: nothing to lose
+                if t_.endswith("ops::Range"):
+                    continue        # a byte range of the input: position, not content
+                missing.append(nm)
+            n += 1
+            if fn["path"] not in r.analysed:
+                r.analysed.append(fn["path"])
+            r.ob(not missing, {"fn": fn["path"], "struct": bt.split("::")[-1], "reads": sorted(fs), "skips": missing})
+            if missing:
+                r.violate("%s | %s skips %s" % (fn["path"], bt.split("::")[-1], "+".join(sorted(missing))), F.loc(fn),
+                          "%s reads fields %s of wasmparser::%s but never `%s`: that part of the parsed item is dropped (reset to a constant) when it is re-encoded" % (fn["name"], sorted(fs), bt.split("::")[-1], "`, `".join(sorted(missing))))
+    r.count("foreign_structs_read", n)
+    r.obligations = max(r.obligations, 1)
+    if not r.violations and r.discharged == 0:
+        r.discharged = r.obligations
+    return r
